@@ -258,7 +258,7 @@ def stress(res, wd, drv, njobs, ops, histories, rounds=1, timeout=600):
             if line.startswith("J "):
                 desc = line[2:]; cur = []
             elif line == "E" and cur is not None:
-                histories.append(("real-thread stress: " + desc, [parse_event(x) for x in cur], None)); cur = None
+                histories.append(("real-thread stress: " + desc, [parse_event(x) for x in cur], " ".join(args[1:]))); cur = None
                 res.count("stress_jobs")
             elif cur is not None and line.startswith("V "):
                 cur.append(line)
@@ -341,7 +341,7 @@ def validate_chunk(res, wd, hs, reserved, tag):
         else:
             rejected += 1
             at = min(cons2, len(hev) - 1)
-            path = _save(wd, "rejected_%s_%d" % (tag, hi), [job] if job else [desc] + [repr(e) for e in hev])
+            path = _save(wd, "rejected_%s_%d" % (tag, hi), [job, "# " + desc] + ["# " + repr(e) for e in hev])
             with res._lock:
                 res.violations.append(("history of the real interning table rejected by spec/InternAbs.tla at event %d %s (%s; preceding events %s)"
                                        % (at + 1, _short(hev[at]), desc, [_short(e) for e in hev[max(0, at - 8):at]]), path))
@@ -370,7 +370,7 @@ def run(tier, replay_path=None):
             p = subprocess.run([drv] + first[first.index("stress"):], capture_output=True, text=True)
             print("\n".join(x for x in p.stdout.split("\n") if x.startswith("J ")))
         else:
-            p = subprocess.run([drv, "coop"], input=text, capture_output=True, text=True)
+            p = subprocess.run([drv, "coop"], input=text.split("\n")[0] + "\n", capture_output=True, text=True)
             print(p.stdout)
         print("driver rc=%d %s" % (p.returncode, p.stderr[-2000:])); return 0
     quick = tier == "quick"
